@@ -29,17 +29,17 @@ FlagPatterns ==
       <<<<P(1),P(0),P(1),P(0)>>, <<P(0),P(1),P(1),P(0)>>>> }
 PrimeFlags == <<<<P(2),P(3),P(5),P(7)>>, <<P(11),P(13),P(17),P(19)>>>>
 SubFlagPatterns == IF Tier = "quick" THEN {PrimeFlags} ELSE FlagPatterns
-QPts == { R(-1,1), R(-1,2), R(0,1), R(1,5), R(7,8), R(1,1) }
-TPts == QPts \cup { R(-3,4), R(-1,3), R(1,2) }
+QPts == { RQ(-1,1), RQ(-1,2), RQ(0,1), RQ(1,5), RQ(7,8), RQ(1,1) }
+TPts == QPts \cup { RQ(-3,4), RQ(-1,3), RQ(1,2) }
 Pts == IF Tier = "quick" THEN QPts ELSE TPts
 Intervals == { <<a, b>> \in Pts \X Pts : RLe(a, b) }
-QInt == { <<R(-1,1), R(1,1)>>, <<R(-1,2), R(1,5)>>, <<R(0,1), R(0,1)>>,
-          <<R(1,5), R(1,1)>>, <<R(-1,1), R(-1,2)>>, <<R(-1,2), R(7,8)>> }
+QInt == { <<RQ(-1,1), RQ(1,1)>>, <<RQ(-1,2), RQ(1,5)>>, <<RQ(0,1), RQ(0,1)>>,
+          <<RQ(1,5), RQ(1,1)>>, <<RQ(-1,1), RQ(-1,2)>>, <<RQ(-1,2), RQ(7,8)>> }
 SubIntervals == IF Tier = "quick" THEN QInt ELSE Intervals
 Maps == IF Tier = "quick"
-        THEN { <<R(0,1), R(1,1)>>, <<R(1,4), R(1,2)>>, <<R(-1,2), R(-1,2)>>, <<R(1,3), R(0,1)>> }
-        ELSE { <<c0, c1>> \in {R(0,1), R(1,4), R(-1,2), R(1,3), R(-2,3)} \X
-                              {R(1,1), R(1,2), R(-1,2), R(0,1), R(-1,3), R(1,4)} :
+        THEN { <<RQ(0,1), RQ(1,1)>>, <<RQ(1,4), RQ(1,2)>>, <<RQ(-1,2), RQ(-1,2)>>, <<RQ(1,3), RQ(0,1)>> }
+        ELSE { <<c0, c1>> \in {RQ(0,1), RQ(1,4), RQ(-1,2), RQ(1,3), RQ(-2,3)} \X
+                              {RQ(1,1), RQ(1,2), RQ(-1,2), RQ(0,1), RQ(-1,3), RQ(1,4)} :
                    RLe(RAdd(RAbs(c0), RAbs(c1)), ROne) }
 FullFamilies == { <<0,0>>, <<0,1>>, <<0,2>>, <<1,1>>, <<1,2>>, <<2,2>> }   \* ff ffxi ffxixi fxifxi fxifxixi fxixifxixi
 MapFamilies  == { <<0,0>>, <<0,1>>, <<1,0>>, <<1,1>>, <<2,2>> }            \* ff ffxi fxif fxifxi fxixifxixi
@@ -139,5 +139,5 @@ HermiteEnds ==   \* f0(-1)=1, f1'(-1)=1/2, f2(1)=1, f3'(1)=1/2 (times flags), th
             out[i][1] = IF (i = 0 /\ req.d = 0 /\ req.xi = MinusOne) \/ (i = 2 /\ req.d = 0 /\ req.xi = ROne)
                         THEN req.xf[i+1]
                         ELSE IF (i = 1 /\ req.d = 1 /\ req.xi = MinusOne) \/ (i = 3 /\ req.d = 1 /\ req.xi = ROne)
-                        THEN RMul(R(1,2), req.xf[i+1]) ELSE RZero
+                        THEN RMul(RQ(1,2), req.xf[i+1]) ELSE RZero
 =============================================================================
